@@ -207,11 +207,23 @@ class Repo:
             raise AnalysisError("module spowtd/%s.py not found" % name)
         return self.modules[name]
 
-    def func(self, dotted):
+    def func(self, dotted, _depth=0):
         """'classify.match_storms' or 'spline.Spline.integrate'."""
         mod, _, q = dotted.partition(".")
         m = self.module(mod)
         if q not in m.functions:
+            # moved to another module of the package and imported back under the same name
+            head = q.split(".")[0]
+            tgt = m.aliases.get(head, "")
+            if not tgt and head in m.constants:
+                # name = other_module.name   (a module-level re-export)
+                cv = m.constants[head]
+                if isinstance(cv, ast.Attribute) and isinstance(cv.value, ast.Name) and m.aliases.get(cv.value.id, "").startswith(PKG + "."):
+                    tgt = m.aliases[cv.value.id] + "." + cv.attr
+            parts = tgt.split(".")
+            if len(parts) == 3 and parts[0] == PKG and parts[1] in self.modules and _depth < 3:
+                rest = q.split(".", 1)[1] if "." in q else None
+                return self.func("%s.%s" % (parts[1], parts[2] + ("." + rest if rest else "")), _depth + 1)
             raise AnalysisError(
                 "function %s not found in %s" % (q, m.relpath)
             )
